@@ -13,6 +13,7 @@ Oracles (none of them calls esutil):
 import numpy as np
 from hypothesis import strategies as st
 
+from vp.gen import layouts as LY
 from vp.api import Raised, Subcheck, must, require, sut
 
 PROPERTY = "C17"
@@ -462,7 +463,7 @@ def ref_interp(xt, yt, u):
 def data_cases(draw):
     xs, ys = draw(tables())
     return {"n": draw(st.one_of(st.integers(1, 120), N_SMALL)), "x": xs, "y": ys,
-            "xint": draw(st.sampled_from([None, "i8", "i4"])),
+            "xint": draw(st.sampled_from([None, "i8", "i4"])), "layout": draw(st.sampled_from(LY.KINDS)),
             "call": draw(st.sampled_from(["integrate", "integrate_data", "qgauss", "npts-in-call"]))}
 
 
@@ -477,6 +478,8 @@ def check_data(case, ctx):
     xs, ys = np.array(case["x"], dtype="f8"), np.array(case["y"], dtype="f8")
     if case.get("xint") and np.all(xs == np.round(xs)):
         xs = xs.astype(case["xint"])          # an integer-typed abscissa column (np.arange and the like)
+    lay = case.get("layout", "contig")
+    xs, ys = LY.relayout(xs, lay), LY.relayout(ys, lay)
     x0, y0 = xs.copy(), ys.copy()
     call = case["call"]
     if call == "integrate":
